@@ -192,7 +192,18 @@ def _line_of(new: str, old: str, line: int) -> str:
 
 def main() -> int:
     argv = sys.argv[1:]
-    opt = {argv[i]: argv[i + 1] for i in range(0, len(argv) - 1, 2) if argv[i].startswith("--")}
+    opt = {}
+    i = 0
+    while i < len(argv):
+        if argv[i].startswith("--"):
+            if i + 1 < len(argv) and not argv[i + 1].startswith("--"):
+                opt[argv[i]] = argv[i + 1]
+                i += 2
+            else:
+                opt[argv[i]] = "1"
+                i += 1
+        else:
+            i += 1
     files_filter = opt.get("--files", "").split(",") if opt.get("--files") else None
     props_filter = set(opt.get("--props", "").split(",")) if opt.get("--props") else None
     jobs_n = int(opt.get("--jobs", "16"))
@@ -206,6 +217,8 @@ def main() -> int:
         if files_filter and not any(f in file for f in files_filter):
             continue
         pids = sorted(pids & props_filter) if props_filter else sorted(pids)
+        if opt.get("--all-props"):
+            pids = [f"C{i:02d}" for i in range(1, 21)]
         if not pids:
             continue
         tree = ast.parse(src[file])
